@@ -234,7 +234,9 @@ impl<'a> Parser<'a> {
             self.advance();
 
             if self.current_token == Token::If {
-                Some(vec![self.parse_statement()?])
+                // the nested if is an expression statement of its own, but a `;` that follows the
+                // chain ends the enclosing statement: it must not be consumed here
+                Some(vec![Stmt::Expr(self.parse_expr(Precedence::Lowest)?)])
             } else {
                 Some(self.parse_block_statement()?)
             }
